@@ -60,3 +60,19 @@ CHECKS['C12'] = dict(
                    'thorough': 'tables=1,round=20000000,gen=400000,hash=400000,gen_big=2000,hash_big=2000'}),
     ],
 )
+
+PROG_LD = WRAP_AES4
+CHECKS['C04'] = dict(
+    level='exploration',
+    rule='ProgramGen cases (configuration block + 384 instruction words; shapes natural / saturated single type / branchy / store-L3 / sparse / fp-heavy / '
+         'rcp-noop; operands biased to src==dst, r4/r5, boundary immediates, mod.cond 0/13/14/15, CFROUND rotate 0/13/14/63) x scratchpad class x entry rounding mode x '
+         'v1/v2 x soft/hard AES x secure on/off x fast (synthetic 2080 MiB dataset) / light (real cache). Each program is injected at link time into the real '
+         'run() of an InterpretedVm and a CompiledVm; oracle: 256-byte register file, 2 MiB scratchpad and MXCSR control bits equal. '
+         'Non-trivial: distinct program containing at least one special-class instruction (src==dst memory form, r4/r5 operand, IMUL_RCP 0/2^k, CFROUND, CBRANCH, L3 store, branch to start)',
+    assumptions=COMMON_ASSUME + ['a defect shared by interpreter and JIT is invisible to this differential (C05/C02 cover that side)',
+                                 'ld --wrap replaces only the AesGenerator4R call made by VmBase::generateProgram'],
+    stages=[
+        dict(name='jit', harness=H('c04', ['harness/c04_jit.cpp'], ldflags=PROG_LD),
+             plan={'quick': 'jit_vs_interp=12000,jit_light=1500', 'thorough': 'jit_vs_interp=600000,jit_light=60000'}),
+    ],
+)
